@@ -149,7 +149,7 @@ def rt_defs(unit):
             d.append("-D%s=%s" % (k, unit.opts[k.lower()]))
     stubs = os.path.join(VERIF, "harness", unit.name + "_stubs.h")
     if os.path.exists(stubs):
-        d += ["-include", stubs]
+        d += ['-DVF_UNIT_STUBS="%s"' % stubs]
     return d
 
 
